@@ -63,8 +63,6 @@ def mon_delivery(tr, pid='C01', require_complete=True, skip_uids=()):
     mp_issued = {'c': [], 's': []}
     raw_side = scn.raw.side if getattr(scn, 'raw', None) is not None else None
     for uid in scn.started:
-        if uid in skip_uids:
-            continue
         st = scn.st[uid]
         spec = st['spec']
         k = spec['k']
@@ -77,6 +75,8 @@ def mon_delivery(tr, pid='C01', require_complete=True, skip_uids=()):
         if k == 'mp':
             if m:
                 mp_issued[peer].append((b'', m))
+            continue
+        if uid in skip_uids:
             continue
         handled = [e for e in evs if e['ev'] == 'handler' and e['side'] == peer]
         if peer == raw_side:
